@@ -1,6 +1,8 @@
 package sim
 
 import (
+	"archive/zip"
+	"bytes"
 	"context"
 	"fmt"
 	"os"
@@ -13,6 +15,7 @@ import (
 
 	"github.com/anishathalye/porcupine"
 
+	"github.com/ARM-software/golang-utils/utils/commonerrors"
 	"github.com/ARM-software/golang-utils/utils/filesystem"
 	"github.com/ARM-software/golang-utils/utils/sharedcache"
 )
@@ -116,7 +119,7 @@ func (w *cacheWorld) addClient(id int) *cacheClient {
 	seam := NewSeam(w.disk.View(id), id)
 	w.sim.Attach(seam)
 	vfs := filesystem.NewVirtualFileSystem(seam, filesystem.Custom, filesystem.IdentityPathConverterFunc)
-	cfg := &sharedcache.Configuration{RemoteStoragePath: cacheRemote, Timeout: 400 * time.Millisecond}
+	cfg := &sharedcache.Configuration{RemoteStoragePath: cacheRemote, Timeout: 400*time.Millisecond + 13*time.Microsecond + time.Duration(id)} // off the latency grid: no tie between the lock timeout and the retry loop
 	var repo sharedcache.ISharedCacheRepository
 	var err error
 	if w.mutable {
@@ -164,7 +167,21 @@ func (w *cacheWorld) newVersion(c int, shape []int) (*cacheVersion, string) {
 		for sb.Len() < size {
 			sb.WriteString(tag)
 		}
-		content := sb.String()[:size]
+		var content string
+		if size < 0 {
+			// a file that is itself a valid archive: it is content like any other and must come back as stored
+			rel = fmt.Sprintf("sub/bundle%d.zip", i)
+			var buf bytes.Buffer
+			zw := zip.NewWriter(&buf)
+			for j := 0; j < 2; j++ {
+				ew, _ := zw.Create(fmt.Sprintf("inner%d.txt", j))
+				_, _ = ew.Write([]byte(strings.Repeat(fmt.Sprintf("<v%d inner%d>", id, j), 40)))
+			}
+			_ = zw.Close()
+			content = buf.String()
+		} else {
+			content = sb.String()[:size]
+		}
 		ver.files[rel] = content
 		f, _ := v.Create(root + "/" + rel)
 		_, _ = f.Write([]byte(content))
@@ -474,7 +491,8 @@ func enumC16(tier string) [][]uint32 {
 	return out
 }
 
-var c16Shapes = [][]int{{300, 0, 45000}, {70000, 12, 5}, {1, 33000, 2000, 800}, {9000, 9000}, {40, 80000, 0, 7, 1200}}
+// sizes of the files of a version; -1: a file that is itself a zip archive
+var c16Shapes = [][]int{{300, 0, 45000}, {70000, 12, 5}, {1, 33000, 2000, 800}, {9000, 9000}, {40, 80000, 0, 7, 1200}, {500, -1, 2000}}
 
 func runC16(rc *RunCtx) {
 	if rc.Ch.Intn("enum", 2) == 1 {
@@ -600,8 +618,14 @@ func runC16Concurrent(rc *RunCtx) {
 	mutable := ch.Intn("kind", 2) == 0
 	nClients := 2 + ch.Intn("clients", 3)
 	faulty := ch.Pick("faults", 3, 2) == 1
+	slowDisk := ch.Pick("slowdisk", 3, 1) == 1
+	contended := mutable && !faulty && ch.Intn("contended", 2) == 1
+	if contended {
+		slowDisk = true
+		res.Probe("contended-slow-store-scenario")
+	}
 	kindName := map[bool]string{true: "mutable", false: "immutable"}[mutable]
-	res.Config = fmt.Sprintf("concurrent kind=%s clients=%d faults=%v", kindName, nClients, faulty)
+	res.Config = fmt.Sprintf("concurrent kind=%s clients=%d faults=%v slowDisk=%v contendedSlowStore=%v", kindName, nClients, faulty, slowDisk, contended)
 	var sim *Sim
 	var w *cacheWorld
 	overlap := false
@@ -609,8 +633,12 @@ func runC16Concurrent(rc *RunCtx) {
 		sim = NewSim(ch)
 		sim.Trace.Keep = rc.KeepTrace
 		sim.MaxSteps = 120000
-		sim.Deadline = time.Now().Add(60 * time.Second)
+		sim.Deadline = time.Now().Add(120 * time.Second)
 		sim.Latencies = []time.Duration{50 * time.Microsecond, 200 * time.Microsecond, time.Millisecond}
+		if slowDisk {
+			// a slow shared store: one Store or Fetch then holds the entry lock for several heartbeat periods
+			sim.Latencies = []time.Duration{time.Millisecond, 3 * time.Millisecond}
+		}
 		w = newCacheWorld(rc, sim, mutable)
 		var clients []*cacheClient
 		for i := 1; i <= nClients; i++ {
@@ -621,12 +649,38 @@ func runC16Concurrent(rc *RunCtx) {
 			act   int
 			shape int
 			pause time.Duration
+			delay time.Duration
 		}
 		scripts := make([][]step, nClients)
 		for i := range scripts {
+			if contended {
+				// a slow Store by client 1 while the others, some heartbeat periods later, clean the entry and store
+				if i == 0 {
+					scripts[i] = []step{{act: 0, shape: ch.Intn("shape", len(c16Shapes))}}
+				} else {
+					scripts[i] = []step{{act: 2, delay: time.Duration(20+ch.Intn("delay", 400)) * time.Millisecond}, {act: 3, shape: ch.Intn("shape", len(c16Shapes))}}
+				}
+				continue
+			}
 			n := 1 + ch.Intn("nops", 3)
 			for j := 0; j < n; j++ {
-				scripts[i] = append(scripts[i], step{act: ch.Pick("act", 4, 4, 1), shape: ch.Intn("shape", len(c16Shapes)), pause: []time.Duration{0, 3 * time.Millisecond, 60 * time.Millisecond}[ch.Intn("pause", 3)]})
+				scripts[i] = append(scripts[i], step{act: ch.Pick("act", 4, 4, 2, 2), shape: ch.Intn("shape", len(c16Shapes)), pause: []time.Duration{0, 3 * time.Millisecond, 60 * time.Millisecond}[ch.Intn("pause", 3)]})
+			}
+		}
+		if contended {
+			// one operation of the slow Store on the shared store takes seconds (its heartbeat, a separate task, goes on)
+			target, seen := ch.Intn("slowop", 48), 0
+			slow := time.Duration(1500+ch.Intn("slowfor", 3000)) * time.Millisecond
+			sim.Decide = func(op *Op) *Fault {
+				if op.Client != 1 || !strings.HasPrefix(op.Path, "/remote") || strings.Contains(op.Path, "lockfile-") {
+					return nil
+				}
+				seen++
+				if seen-1 == target {
+					res.Fault("slow-operation-while-holding-entry-lock")
+					return &Fault{Latency: slow}
+				}
+				return nil
 			}
 		}
 		fired := false
@@ -647,6 +701,10 @@ func runC16Concurrent(rc *RunCtx) {
 					if cl.dead {
 						return
 					}
+					if st.delay > 0 {
+						time.Sleep(st.delay)
+						sim.Yield(cl.id, "delayed-start")
+					}
 					if inflight > 0 {
 						overlap = true
 					}
@@ -656,8 +714,16 @@ func runC16Concurrent(rc *RunCtx) {
 						_, _ = w.store(cl, c16Shapes[st.shape])
 					case 1:
 						_, _ = w.fetch(cl)
-					default:
+					case 2:
 						_ = w.clean(cl)
+					default:
+						// what a client does about a stale entry lock: clean the entry, then try again
+						_, err := w.store(cl, c16Shapes[st.shape])
+						if commonerrors.Any(err, commonerrors.ErrStaleLock) && !cl.dead {
+							res.Probe("store-retried-after-stale-lock")
+							_ = w.clean(cl)
+							_, _ = w.store(cl, c16Shapes[st.shape])
+						}
 					}
 					inflight--
 					if st.pause > 0 {
@@ -692,6 +758,37 @@ func runC16Concurrent(rc *RunCtx) {
 				}
 			}
 			w.mu.Unlock()
+			// overlapping Stores: when every Store that failed or was cut short was over before the last successful Store
+			// began, the entry is owed to the successful Stores alone - with nothing in flight the Fetch must succeed and
+			// return the version of that Store or of a successful Store that overlapped it
+			w.mu.Lock()
+			var lastOK *cacheOp
+			for _, h := range w.history {
+				if h.kind == "store" && h.ret != 0 && h.err == nil && !h.crashed && (lastOK == nil || h.call > lastOK.call) {
+					lastOK = h
+				}
+			}
+			owed := lastOK != nil
+			cands := map[int]bool{}
+			if owed {
+				for _, h := range w.history {
+					if h.kind != "store" {
+						continue
+					}
+					okStore := h.ret != 0 && h.err == nil && !h.crashed
+					if !okStore && (h.ret == 0 || h.ret > lastOK.call) {
+						owed = false
+					}
+					if okStore && (h == lastOK || h.ret > lastOK.call) {
+						cands[h.version] = true
+					}
+				}
+			}
+			w.mu.Unlock()
+			if owed && !clean && (errF != nil || !cands[opF.version]) {
+				res.Violate("successful-store-not-visible", "quiescent-fetch-returns-no-successful-overlapping-store|"+kindName,
+					fmt.Sprintf("%s: %d overlapping Stores reported success (the last to begin: v%d by client %d) and every failed Store was over before it began; with nothing in flight Fetch returned err=%v version=v%d", res.Config, len(cands), lastOK.version, lastOK.client, errF, opF.version))
+			}
 			if clean && (errF != nil || opF.version != last.version) {
 				res.Violate("successful-store-not-visible", "quiescent-fetch-does-not-return-last-successful-store|"+kindName,
 					fmt.Sprintf("%s: Store(v%d) by client %d reported success, no other Store overlapped or followed it; with nothing in flight Fetch returned err=%v version=v%d", res.Config, last.version, last.client, errF, opF.version))
